@@ -15,7 +15,9 @@
   `cycle_iff_onStack` (true cycles only), termination for delimiter-balanced tables and under
   the finite-reach hypothesis, the REFUTATION of general termination
   (`resolve_diverges_counterexample`: a 2-entry table with unbalanced values on which no fuel
-  suffices; the Go code overflows its stack), and `resolve_refines_evalT` on the flat fragment.
+  suffices; the Go code overflows its stack), `resolve_refines_evalT` on the flat fragment and, under the
+  key-safety hypothesis, for nested keys; the real `norm` (re-lexing): irrelevant on inputs without
+  partial delimiters, divergent on a balanced table with one.
 -/
 import YtkProofs.Resolver
 import YtkProofs.ResolverSem
@@ -23,6 +25,7 @@ import YtkProofs.ResolverTerm
 import YtkProofs.ResolverDiverge
 import YtkProofs.ResolverEval
 import YtkProofs.ResolverNested
+import YtkProofs.ResolverRelex
 
 namespace Ytk.C11
 open Ytk.Resolver
@@ -442,6 +445,114 @@ theorem resolve_refines_evalT_nested_unconditional_refuted :
   revert this
   decide
 
+/-! ## the real `norm`: re-lexing of the resolved placeholder text (YtkProofs/ResolverRelex.lean)
+
+  The driver runs the model with `norm = relex d` (`lex d ∘ unlex d`): the Go code sees the BYTES of
+  the resolved placeholder text, in which two halves of a delimiter may have been glued together.
+
+  Full statement — FALSE (`resolve_diverges_relex_counterexample`,
+  `resolve_terminates_balanced_relex_refuted`):
+
+      ∀ d tbl, (∀ kv ∈ tbl, Balanced kv.2) → ∀ s seen, ∃ n, ∀ m ≥ n, resolve (relex d) m tbl s seen ≠ .outOfFuel
+
+  A balanced value may hold one half of a delimiter as plain text (o = `$`); next to a literal `{`
+  the re-lexed text has a prefix token that is in no value and not in the input, and the run is
+  the divergent one of D29 (same class: at BYTE level the value `${o}{a}}${o}{:${o}{a}w` is not
+  balanced once `${o}{` has become `${`).  Hypothesis that makes it true: the delimiters are
+  non-empty and start with three different characters (`Delims.LexOK`: all triples in use), and no
+  character token of the table values and of the input is the FIRST character of a delimiter
+  (`Over (CleanTok d)`: no partial delimiter; decidable).  On such inputs `relex d` is the identity
+  on every text the resolver ever builds, and the model does not depend on `norm` at all. -/
+
+/-- abstract form: if `norm` is the identity on all token lists over an alphabet `A` that contains
+    the table values and the input, the resolver with `norm` is the resolver with `id` -/
+theorem resolve_norm_irrelevant_of_stable {A : Tok → Prop} (hA : ∀ t, Over A t → norm t = t)
+    (hT : ∀ kv ∈ tbl, Over A kv.2) (n : Nat) (s : Toks) (seen : List Toks) (hs : Over A s) :
+    resolve norm n tbl s seen = resolve id n tbl s seen :=
+  (resolve_norm_eq_id hA hT n s seen hs).1
+
+/-- re-lexing is the identity on clean token lists -/
+theorem relex_id_of_clean {d : Delims} (hd : d.LexOK) (t : Toks) (ht : Over (CleanTok d) t) :
+    relex d t = t :=
+  relex_clean hd t ht
+
+/-- the model under the real `norm` equals the model under `id` on clean tables and inputs
+    (same fuel, every stack): every `norm = id` theorem of this file transfers -/
+theorem resolve_relex_eq_id_of_clean {d : Delims} (hd : d.LexOK)
+    (hc : ∀ kv ∈ tbl, Over (CleanTok d) kv.2) (n : Nat) (s : Toks) (seen : List Toks)
+    (hs : Over (CleanTok d) s) : resolve (relex d) n tbl s seen = resolve id n tbl s seen :=
+  resolve_relex_eq_id hd hc n s seen hs
+
+/-- `resolve_terminates_balanced` under the REAL `norm`: balanced clean table values, ANY clean
+    input (balanced or with an unterminated tail), every stack.  `_partial`: the statement without
+    the cleanliness hypothesis is refuted below. -/
+theorem resolve_terminates_balanced_relex_partial (d : Delims) (hd : d.LexOK) (tbl : Table)
+    (hb : ∀ kv ∈ tbl, Balanced kv.2) (hc : ∀ kv ∈ tbl, Over (CleanTok d) kv.2)
+    (s : Toks) (hs : Over (CleanTok d) s) (seen : List Toks) :
+    ∃ n, ∀ m, n ≤ m → resolve (relex d) m tbl s seen ≠ .outOfFuel := by
+  obtain ⟨r, hr⟩ := resolves_balanced_relex hd hb hc s seen hs
+  obtain ⟨n, hn⟩ := hr.fuel
+  exact ⟨n, fun m hm => by rw [hn m hm]; exact hr.ne⟩
+
+/-- the nested-key refinement under the real `norm` -/
+theorem resolve_refines_evalT_nested_relex_partial {d : Delims} (hd : d.LexOK) {tt : TTable2}
+    (hT : tt.WF) (hc : ∀ kv ∈ toTable2 tt, Over (CleanTok d) kv.2) (n : Nat) (t : Tmpl2)
+    (st : List Toks) (ht : t.WF) (hs : Over (CleanTok d) (render2 t))
+    (h : evalT2 tt n t st ≠ .outOfFuel) (hk : keySafe tt n t st = true) :
+    ∃ k, ∀ m, k ≤ m → resolve (relex d) m (toTable2 tt) (render2 t) st = evalT2 tt n t st := by
+  obtain ⟨k, hk'⟩ := resolve_refines_evalT_nested_partial hT n t st ht h hk
+  exact ⟨k, fun m hm => by rw [resolve_relex_eq_id hd hc m _ st hs]; exact hk' m hm⟩
+
+/-- COUNTEREXAMPLE to termination for balanced tables under the real `norm`.  Table  o = "$",
+    a = "${o}{a}}${o}{:${o}{a}w",  input "${:${a}${a}}" (default delimiters): NO fuel suffices.
+    (With `norm = id` the same run ends: `nonvacuous_relex_witness`.) -/
+theorem resolve_diverges_relex_counterexample (fuel : Nat) :
+    resolveTop (relex ⟨['$', '{'], ['}'], [':']⟩) fuel
+      [([.ch 'o'], [.ch '$']),
+       ([.ch 'a'], [.pre, .ch 'o', .suf, .ch '{', .ch 'a', .suf, .suf, .pre, .ch 'o', .suf, .ch '{', .sep,
+          .pre, .ch 'o', .suf, .ch '{', .ch 'a', .suf, .ch 'w'])]
+      [.pre, .sep, .pre, .ch 'a', .suf, .pre, .ch 'a', .suf, .suf] = .outOfFuel :=
+  DivR.diverges fuel
+
+/-- hence balance of the table values alone does not give termination under the real `norm` -/
+theorem resolve_terminates_balanced_relex_refuted :
+    ¬ ∀ (tbl : Table), (∀ kv ∈ tbl, Balanced kv.2) → ∀ (s : Toks),
+        ∃ n, ∀ m, n ≤ m → resolve (relex ⟨['$', '{'], ['}'], [':']⟩) m tbl s [] ≠ .outOfFuel := by
+  intro h
+  obtain ⟨n, hn⟩ := h DivR.tblR DivR.tblR_balanced (Div.D 0)
+  exact hn n (Nat.le_refl n) (DivR.diverges n)
+
+/-- the witness: its token lists are what the lexer makes of the Go-side strings, both values
+    are balanced, the value of `o` is not clean (`$` starts the prefix), and with `norm = id` the
+    run ends -/
+theorem nonvacuous_relex_witness :
+    let d : Delims := ⟨['$', '{'], ['}'], [':']⟩
+    let vA : Toks := [.pre, .ch 'o', .suf, .ch '{', .ch 'a', .suf, .suf, .pre, .ch 'o', .suf, .ch '{', .sep,
+          .pre, .ch 'o', .suf, .ch '{', .ch 'a', .suf, .ch 'w']
+    lex d ['$'] = [.ch '$'] ∧
+    lex d ['$', '{', 'o', '}', '{', 'a', '}', '}', '$', '{', 'o', '}', '{', ':', '$', '{', 'o', '}', '{',
+      'a', '}', 'w'] = vA ∧
+    Balanced [Tok.ch '$'] ∧ Balanced vA ∧ d.LexOK ∧ ¬ Over (CleanTok d) [Tok.ch '$'] ∧
+    resolveTop id 20 [([.ch 'o'], [.ch '$']), ([.ch 'a'], vA)]
+      [.pre, .sep, .pre, .ch 'a', .suf, .pre, .ch 'a', .suf, .suf] ≠ .outOfFuel := by
+  decide
+
+/-- the hypotheses of `resolve_terminates_balanced_relex_partial` on a non-trivial instance:
+    all four delimiter triples of the harness are `LexOK`; the table a = `x${b:y}{`, b = `${c}`
+    (values with the NON-first prefix character `{` as plain text) is balanced and clean, so is the
+    input `${u:${a}-${u}}|${a` — and the model under `relex` gives `x${c}{-${u}|${a` -/
+theorem nonvacuous_relex_clean :
+    let d : Delims := ⟨['$', '{'], ['}'], [':']⟩
+    let tbl : Table := [(tA, [.ch 'x', .pre, .ch 'b', .sep, .ch 'y', .suf, .ch '{']),
+      ([.ch 'b'], [.pre, .ch 'c', .suf])]
+    let s : Toks := [.pre, .ch 'u', .sep] ++ phA ++ [.ch '-', .pre, .ch 'u', .suf, .suf, .ch '|', .pre, .ch 'a']
+    d.LexOK ∧ Delims.LexOK ⟨['#', '{'], ['}'], ['|']⟩ ∧ Delims.LexOK ⟨['<', '<'], ['>', '>'], [':', ':']⟩ ∧
+    Delims.LexOK ⟨['%', '('], [')'], ['?']⟩ ∧
+    (∀ kv ∈ tbl, Balanced kv.2) ∧ (∀ kv ∈ tbl, Over (CleanTok d) kv.2) ∧ Over (CleanTok d) s ∧
+    resolveTop (relex d) 10 tbl s =
+      .ok [.ch 'x', .pre, .ch 'c', .suf, .ch '{', .ch '-', .pre, .ch 'u', .suf, .ch '|', .pre, .ch 'a'] := by
+  decide
+
 /-! ## Non-vacuity and witnesses (norm = id) -/
 
 
@@ -511,12 +622,21 @@ theorem nonvacuous_evalT_cycle :
   * resolve_terminates (arbitrary finite tables) — REFUTED (`resolve_diverges_counterexample`,
     `resolve_terminates_refuted`); proved for balanced tables (`resolve_terminates_balanced_partial`),
     plain-text tables (`resolve_terminates_flat_partial`) and under the finite-reach hypothesis
-    (`resolve_terminates_of_finite_reach_partial`), all for every stack.  Not covered: `norm ≠ id`
-    (re-lexing of glued delimiter halves) in the balanced instance.
+    (`resolve_terminates_of_finite_reach_partial`), all for every stack, `norm = id`.
+    `norm = relex d` (the real one): balance of the values alone is NOT enough
+    (`resolve_diverges_relex_counterexample`, `resolve_terminates_balanced_relex_refuted`: a value
+    that is one half of a delimiter glues with literal text; D29 class at byte level); proved for
+    balanced tables and inputs without partial delimiters (`resolve_terminates_balanced_relex_partial`;
+    there the model does not depend on `norm`: `resolve_relex_eq_id_of_clean`).
 
   * resolve_refines_evalT — PROVED on the flat fragment (`resolve_refines_evalT_flat_partial`:
     plain keys, template defaults, template values; `resolve_iff_evalT_flat_partial` gives both
-    directions).  Not proved: nested keys.  The harness compares with
+    directions) and for NESTED KEYS (`resolve_refines_evalT_nested_partial`, AST `Tmpl2`, evaluator
+    `evalT2`) under the per-run hypothesis `keySafe` = every evaluated key text is separator-free;
+    without it the statement is false (`nested_needs_sepfree_counterexample`,
+    `resolve_refines_evalT_nested_unconditional_refuted`).  Under the real `norm`:
+    `resolve_refines_evalT_nested_relex_partial` (clean tables and templates).  Not proved: the
+    converse direction (resolver ends ⇒ `evalT2` ends) for nested keys.  The harness compares with
     an independently written Go recursive-descent reference on the full grammar.
 -/
 
